@@ -115,10 +115,14 @@ func writeFrame(w io.Writer, data []byte) error {
 
 // workerMain never returns.
 func workerMain() {
+	// GOTRACEBACK=crash makes a SIGQUIT dump show the goroutine that runs the script even when it
+	// is on another thread; no core files
+	_ = syscall.Setrlimit(syscall.RLIMIT_CORE, &syscall.Rlimit{Cur: 0, Max: 0})
 	debug.SetMaxStack(256 << 20) // nesting bombs die early; a stack overflow is never counted as a violation
 	if d := os.Getenv("VERIF_C16_WORKER_DIR"); d != "" {
 		_ = os.Chdir(d) // relative dofile("payload.lua") attempts resolve inside the sentinel directory
 	}
+	fmt.Fprint(os.Stderr, readyLine)
 	go memWatchdog()
 	in := bufio.NewReaderSize(os.NewFile(3, "req"), 1<<16)
 	out := os.NewFile(4, "resp")
@@ -213,6 +217,8 @@ func errFlags(e string) []string {
 	return f
 }
 
+const nilReturnPanic = "l.Get(-1) returned a Go-nil LValue; executeLuaForCanary calls returnValue.Type() on it: runtime error: invalid memory address or nil pointer dereference"
+
 func guard(f func()) (msg string) {
 	defer func() {
 		if r := recover(); r != nil {
@@ -267,6 +273,11 @@ func serveRaw(req *Request, in map[string]interface{}, resp *Response) {
 		}
 		ran = true
 		rv = l.Get(-1)
+		if rv == nil {
+			// the providers go on with returnValue.Type(): nil pointer dereference
+			// (ingress.go / custom_network_provider.go executeLuaForCanary). Reported as that panic.
+			panic(nilReturnPanic)
+		}
 		if rv.Type() == lua.LTTable {
 			encoded, encErr = luamanager.Encode(rv)
 		}
@@ -315,17 +326,18 @@ func inspectState(l *lua.LState, req *Request, resp *Response) {
 			skip[s] = true
 		}
 	}
+	g, ok := l.Get(lua.GlobalsIndex).(*lua.LTable)
+	if !ok || g == nil {
+		return
+	}
 	for _, name := range forbiddenGlobals {
 		if skip[name] {
 			continue
 		}
-		if v := l.GetGlobal(name); v != lua.LNil {
+		// raw access: the VM is closed, metamethods of _G must not run
+		if v := g.RawGetString(name); v != lua.LNil {
 			resp.Globals[name] = v.Type().String()
 		}
-	}
-	g, ok := l.Get(lua.GlobalsIndex).(*lua.LTable)
-	if !ok || g == nil {
-		return
 	}
 	seen := map[*lua.LTable]bool{}
 	budget := 20000
